@@ -56,6 +56,18 @@ def gen(tier, rng, harness=None, driver=None):
                 lines.append("!ty.inj %s %s" % (a, b))
         for _ in range(30000):
             lines.append("!ty.laws %s %s %s" % (rng.choice(U), rng.choice(U), rng.choice(U)))
+    # systematically: every pair of types that differ in exactly ONE attribute at the edge of its range — zero fields / zero length / zero parameters —
+    # alone and inside every container (a special case for "empty" is where a comparison forgets an attribute)
+    edge = [("s()", "P()"), ("s(s())", "s(P())"), ("a0(i32)", "a0(i64)"), ("a0(s())", "a0(P())"), ("F(v;)", "G(v;)"), ("F(s();)", "F(P();)"),
+            ("V1(i32)", "S1(i32)"), ("p0(s())", "p0(P())"), ("p0(i8)", "p1(i8)"), ("s(i8)", "P(i8)"), ("a0(i8)", "a1(i8)"), ("V1(i8)", "a1(i8)")]
+    for x, y in edge:
+        for wrap in ("%s", "p0(%s)", "a2(%s)", "a0(%s)", "s(%s)", "P(i8,%s)", "F(v;%s)", "F(%s;i32)", "s(s(%s))"):
+            a, b = wrap % x, wrap % y
+            if "V1" in a and wrap in ("a2(%s)", "a0(%s)") and False:
+                continue
+            for l, r in ((a, b), (b, a)):
+                lines.append("ty.equal %s %s" % (l, r))
+                lines.append("!ty.inj %s %s" % (l, r))
     n = 800 if tier == "quick" else 40000
     for _ in range(n):
         a = tygen.gen_ty(rng, rng.randint(0, 4))
